@@ -13,6 +13,7 @@ pub mod c08;
 pub mod c09;
 pub mod c10;
 pub mod c11;
+pub mod c12;
 pub mod c13;
 #[cfg(feature = "sched")]
 pub mod c14;
@@ -34,6 +35,7 @@ pub fn run(id: &str, o: &Opts, stats: &mut Stats) -> Option<usize> {
         "C09" => c09::run(o, stats),
         "C10" => c10::run(o, stats),
         "C11" => c11::run(o, stats),
+        "C12" => c12::run(o, stats),
         "C13" => c13::run(o, stats),
         #[cfg(feature = "sched")]
         "C14" => c14::run(o, stats),
